@@ -593,7 +593,7 @@ func (f *Frame) applyContract(con *Contract, key string, sig *types.Signature, a
 	if con.ModAll {
 		f.havocHeap()
 	} else {
-		for _, m := range con.Modifies {
+		for _, m := range vc.P.effMods(con) {
 			k := vc.P.modKey(m)
 			if _, ok := vc.cellSort[k]; !ok {
 				// materialise the cell (sort derived from the declaration) so that the unchanged value on other
@@ -759,13 +759,12 @@ func (f *Frame) execBuiltin(b *ssa.Builtin, c *ssa.CallCommon, result ssa.Value,
 		if len(c.Args) < 2 {
 			return s
 		}
-		if !strings.HasPrefix(s.s, "Slice_") || s.s != SBS {
-			vc.appendSeen = vc.P.fset.Position(pos).String()
-			if vc.sliceShortened != "" {
-				vc.errf("%s: a slice is shortened (%s) and appended to (%s) in one function: backing-array aliasing is outside the value model of slices", vc.P.fnKey(vc.fn), vc.sliceShortened, vc.appendSeen)
-			}
-		}
 		t := f.sval(c.Args[1]) // variadic tail is a slice
+		if s.s != SBS {
+			vc.appendSeen = vc.P.fset.Position(pos).String()
+			vc.appendSeenFn = f.fn
+			f.appendToShortened(c, s, t, pos)
+		}
 		if s.s == SBS {
 			r := vc.fresh("appendbytes", SStr)
 			vc.assume(eq(sx("strlen", r), sx("+", sx("strlen", sx("bs_c", s.t)), ite(eq(t.s, SBS), sx("strlen", sx("bs_c", t.t)), "0"))))
